@@ -73,7 +73,7 @@ impl Game {
         let mut terms = fen.split_ascii_whitespace();
 
         let mut hash = 0;
-        let mut score = 0;
+        let mut score: Score = 0;
 
         let mut board = [None; 64];
         let mut past_scores = [0; 64];
@@ -122,7 +122,8 @@ impl Game {
                     let position = Position::new_assert(row, col);
                     board[position.as_usize()] = Some(piece);
                     past_scores[position.as_usize()] = piece.score(position, &piece_scores);
-                    score += past_scores[position.as_usize()];
+                    // The sum may not fit an i16 (several kings, dozens of queens): wrap, never panic
+                    score = score.wrapping_add(past_scores[position.as_usize()]);
                     past_hashes[position.as_usize()] = piece.hash(position);
                     hash ^= past_hashes[position.as_usize()];
 
@@ -281,7 +282,7 @@ impl Game {
         };
 
         self.hash ^= *place_hash;
-        self.score -= *place_score;
+        self.score = self.score.wrapping_sub(*place_score);
 
         *place = new_place;
 
@@ -293,7 +294,7 @@ impl Game {
             .unwrap_or(zobrist::EMPTY_PLACE);
 
         self.hash ^= *place_hash;
-        self.score += *place_score;
+        self.score = self.score.wrapping_add(*place_score);
     }
 
     pub fn get_king_position(&self, player: Player) -> Position {
